@@ -304,21 +304,24 @@ func checkC09Dispatch(r *Run, vm *VisitorModel, g *Grammar, filtered map[string]
 	if eer == nil {
 		r.Fatal("Context.EnterEveryRule not found")
 	}
-	// top-level statement: for _, f := range s.filters { ctx.EnterRule(f) } before any return / branch
+	// an unconditional statement — of EnterEveryRule or of a helper method it calls unconditionally — that iterates over
+	// all of s.filters and hands each to ctx.EnterRule, before any statement that can leave
 	found := false
-	for _, st := range eer.Body.List {
-		if rs, ok := st.(*ast.RangeStmt); ok {
-			if sel, ok := ast.Unparen(rs.X).(*ast.SelectorExpr); ok && sel.Sel.Name == "filters" {
-				val, _ := rs.Value.(*ast.Ident)
-				if val != nil && len(rs.Body.List) >= 1 {
-					if es, ok := rs.Body.List[0].(*ast.ExprStmt); ok {
+	eerInl := inlineFuncWith(fe, eer, 2, true)
+	for _, st := range eerInl.Top {
+		if it := fullIteration(info, st); it != nil {
+			coll := resolveLocalCopy(info, eerInl.Body, it.Coll)
+			if sel, ok := ast.Unparen(coll).(*ast.SelectorExpr); ok && sel.Sel.Name == "filters" && !it.MayStopEarly {
+				for _, bs := range it.Body.List {
+					if es, ok := bs.(*ast.ExprStmt); ok {
 						if call, ok := es.X.(*ast.CallExpr); ok {
-							if s2, ok := call.Fun.(*ast.SelectorExpr); ok && s2.Sel.Name == "EnterRule" && len(call.Args) == 1 {
-								if a, ok := call.Args[0].(*ast.Ident); ok && info.Uses[a] == info.Defs[val] {
-									found = true
-								}
+							if s2, ok := call.Fun.(*ast.SelectorExpr); ok && s2.Sel.Name == "EnterRule" && len(call.Args) == 1 && it.IsElem(call.Args[0]) {
+								found = true
 							}
 						}
+					}
+					if _, isBind := bs.(*ast.AssignStmt); !isBind {
+						break // the delivery is the first thing done with the element
 					}
 				}
 			}
@@ -397,10 +400,11 @@ func checkC09Dispatch(r *Run, vm *VisitorModel, g *Grammar, filtered map[string]
 	if pc.Type.Params != nil && len(pc.Type.Params.List) > 0 {
 		ctxParam = info.Defs[pc.Type.Params.List[0].Names[0]]
 	}
-	ast.Inspect(pc.Body, func(n ast.Node) bool {
+	pcInl := inlineFunc(vm.pkg, pc, 2)
+	ast.Inspect(pcInl.Body, func(n ast.Node) bool {
 		if call, ok := n.(*ast.CallExpr); ok {
 			if fn := calleeOf(info, call); fn != nil && fn.Name() == "Walk" && fn.Pkg() != nil && strings.Contains(fn.Pkg().Path(), "antlr") && len(call.Args) == 2 {
-				if a, ok := call.Args[0].(*ast.Ident); ok && info.Uses[a] == ctxParam {
+				if a, ok := call.Args[0].(*ast.Ident); ok && pcInl.Obj(a) == ctxParam {
 					walkOK = true
 				}
 			}
@@ -553,14 +557,35 @@ func checkC09Errors(r *Run, vm *VisitorModel) {
 	ae := decls["Context.AddErrors"]
 	okAE := false
 	if ae != nil && len(ae.Body.List) == 1 {
-		if rs, ok := ae.Body.List[0].(*ast.RangeStmt); ok && len(rs.Body.List) == 1 {
-			if ifs, ok := rs.Body.List[0].(*ast.IfStmt); ok && ifs.Init == nil && ifs.Else == nil {
-				c := exprString(r.Fset, ifs.Cond)
-				if strings.HasSuffix(strings.ReplaceAll(c, " ", ""), "!=nil") && len(ifs.Body.List) == 1 {
-					if as, ok := ifs.Body.List[0].(*ast.AssignStmt); ok && len(as.Rhs) == 1 {
-						if call, ok := as.Rhs[0].(*ast.CallExpr); ok {
-							if id, ok := call.Fun.(*ast.Ident); ok && id.Name == "append" && len(call.Args) == 2 {
-								if v, ok := call.Args[1].(*ast.Ident); ok && rs.Value != nil && info.Uses[v] == info.Defs[rs.Value.(*ast.Ident)] {
+		if it := fullIteration(info, ae.Body.List[0]); it != nil && !it.MayStopEarly {
+			// `if e != nil { append }`, or the guard-clause spelling `if e == nil { continue }; append`
+			body := nestGuardClauses(it.Body.List)
+			for len(body) > 1 {
+				if as, ok := body[0].(*ast.AssignStmt); ok && as.Tok == token.DEFINE && len(as.Rhs) == 1 && it.IsElem(as.Rhs[0]) {
+					body = body[1:]
+					continue
+				}
+				break
+			}
+			if len(body) == 1 {
+				if ifs, ok := body[0].(*ast.IfStmt); ok && ifs.Init == nil {
+					var arm []ast.Stmt
+					if be, ok := ast.Unparen(ifs.Cond).(*ast.BinaryExpr); ok && isNilIdent(info, be.Y) && it.IsElem(be.X) {
+						switch {
+						case be.Op == token.NEQ && ifs.Else == nil:
+							arm = ifs.Body.List
+						case be.Op == token.EQL && len(ifs.Body.List) == 1:
+							if br, ok := ifs.Body.List[0].(*ast.BranchStmt); ok && br.Tok == token.CONTINUE && br.Label == nil {
+								if eb, ok := ifs.Else.(*ast.BlockStmt); ok {
+									arm = eb.List
+								}
+							}
+						}
+					}
+					if len(arm) == 1 {
+						if as, ok := arm[0].(*ast.AssignStmt); ok && len(as.Rhs) == 1 {
+							if call, ok := as.Rhs[0].(*ast.CallExpr); ok {
+								if id, ok := call.Fun.(*ast.Ident); ok && id.Name == "append" && len(call.Args) == 2 && it.IsElem(call.Args[1]) {
 									okAE = true
 								}
 							}
@@ -578,7 +603,12 @@ func checkC09Errors(r *Run, vm *VisitorModel) {
 	// parseCypher: every return has errors.Join(ctx.Errors...) as its error result
 	pc := decls["parseCypher"]
 	nret, okret := 0, 0
-	ast.Inspect(pc.Body, func(n ast.Node) bool {
+	pcInl := inlineFunc(vm.pkg, pc, 2)
+	var pcCtx types.Object
+	if pc.Type.Params != nil && len(pc.Type.Params.List) > 0 && len(pc.Type.Params.List[0].Names) > 0 {
+		pcCtx = info.Defs[pc.Type.Params.List[0].Names[0]]
+	}
+	ast.Inspect(pcInl.Body, func(n ast.Node) bool {
 		if _, ok := n.(*ast.FuncLit); ok {
 			return false
 		}
@@ -589,7 +619,9 @@ func checkC09Errors(r *Run, vm *VisitorModel) {
 					if fn := calleeOf(info, call); fn != nil && funcFullName(fn) == "errors.Join" {
 						if sel, ok := call.Args[0].(*ast.SelectorExpr); ok {
 							if s := info.Selections[sel]; s != nil && s.Obj() == errorsField {
-								okret++
+								if id, ok := ast.Unparen(sel.X).(*ast.Ident); ok && pcInl.Obj(id) == pcCtx {
+									okret++
+								}
 							}
 						}
 					}
